@@ -1,4 +1,4 @@
 SPECIFICATION TraceSpec
-INVARIANT I12
+INVARIANT J12
 POSTCONDITION TraceAccepted
 CHECK_DEADLOCK FALSE
